@@ -85,6 +85,7 @@ pub fn run(args: &Args) {
     error_propagation_table(&mut rep, args);
     deregistration_table(&mut rep, args);
     nested_call_table(&mut rep, args, &ev);
+    same_body_different_delimiters(&mut rep, args, &ev, &strict);
     // unknown inner call is reported, not the outer: arguments are evaluated first
     if args.shard == 0 {
         for (text, inner) in [("length(nofn(@))", "nofn"), ("nofn(nofn2(@))", "nofn2"), ("abs(x, nofn3(`1`))", "nofn3")] {
@@ -301,6 +302,50 @@ fn check_succeeds(rep: &mut Report, text: &str, doc: &Value, cell: &str) {
             "C06/call-evaluated-although-short-circuited",
             json!({"expression": text, "document": doc, "cell": cell, "got": format!("{:?}", other.map(|r| r.map(|v| v.to_string()).map_err(|e| e.to_string())))}),
         ),
+    }
+}
+
+/// The same characters between different delimiters in one expression — a raw string `'1'`, a literal `` `1` ``, a quoted
+/// identifier `"1"` — are three different things (a string, a JSON value, a member name); each argument keeps its own
+/// type however often and in whatever order the same body occurs.
+fn same_body_different_delimiters(rep: &mut Report, args: &Args, ev: &Evaluator, strict: &Opts) {
+    if args.shard != 0 {
+        return;
+    }
+    const BODIES: [&str; 12] = ["1", "12", "-1", "1.5", "true", "false", "null", "[]", "{}", "\"a\"", "[1]", "0"];
+    const FORMS: [&str; 14] = [
+        "starts_with('{X}', `{X}`)", "starts_with(`{X}`, '{X}')", "contains('{X}', `{X}`)", "[length('{X}'), abs(`{X}`)]", "[abs(`{X}`), length('{X}')]", "join('{X}', [`{X}`, '{X}'])",
+        "[`{X}`, '{X}', `{X}`, '{X}'] | [type(@[0]), type(@[1]), type(@[2]), type(@[3])]", "'{X}' == `{X}`", "not_null(`{X}`, '{X}') | type(@)", "to_number('{X}') == to_number(`{X}`)",
+        "[type(`{X}`), type('{X}'), type(\"{Q}\")]", "length(`{X}`) || length('{X}')", "merge(`{X}`, {k: '{X}'})", "['{X}', `{X}`][?type(@) == 'string']",
+    ];
+    let doc = json!({"1": "member-one", "true": "member-true", "a": 5});
+    for b in BODIES.iter() {
+        for f in FORMS.iter() {
+            let text = f.replace("{X}", b).replace("{Q}", &b.replace('"', ""));
+            let tree = match parse(&text, strict) {
+                Ok(t) => t,
+                Err(_) => continue,
+            };
+            rep.evaluations += 1;
+            let want = ev.eval(&tree, &doc);
+            let got = guarded(|| jmespath::compile(&text).and_then(|e| e.search(rcvar_of(&doc))));
+            let ok = match (&want, &got) {
+                (Err(e), _) if matches!(e.kind, ErrKind::Unconstrained(_)) => true,
+                (Ok(x), Ok(Ok(g))) => value_of(g).map_or(false, |g| refimpl::json::val_eq(x, &g, 1e-12)),
+                (Err(e), Ok(Err(g))) => e.class() == err_class(g),
+                _ => false,
+            };
+            if ok {
+                rep.count("same_body_different_delimiters_ok");
+                rep.nontrivial(fnv(text.as_bytes()));
+            } else {
+                rep.violation(
+                    "C06/argument-took-the-type-of-another-token-with-the-same-text",
+                    json!({"expression": text, "document": doc, "expected": format!("{:?}", want.as_ref().map(|v| v.to_string()).map_err(|e| e.class())),
+                           "got": format!("{:?}", got.map(|r| r.map(|v| v.to_string()).map_err(|e| e.to_string())))}),
+                );
+            }
+        }
     }
 }
 
